@@ -13,6 +13,8 @@
 //!   C08 tmeta <hex>           decode_metadata on raw bytes                        (search only)
 //!   C08 pq <file> <mutation>  corrupted Parquet file through ParquetRecordBatchReader (search only)
 //!   C08 pqraw <hex>           the same on explicit bytes                          (search only)
+//!   C08 pqsplit <view|utf8>:<plain|dlen|dba|dict>   string column whose page bytes are those of a binary column in which a
+//!                             multi-byte character is split across two adjacent values (search only)
 //!   C08 variant <id> <m|v>:<mutation>   Variant::try_new on corrupted metadata / value buffers + full traversal (search only)
 //!   C08 variantraw <meta hex> <value hex>
 //! Every case runs in a worker process under a watchdog and a capping allocator (c08_infra.rs).
@@ -398,6 +400,50 @@ fn mutate(mut f: Vec<u8>, spec: &str, files: &dyn Fn(usize) -> Vec<u8>) -> Vec<u
 }
 
 
+
+/// A file for a string column `c` (Utf8View or Utf8) whose data pages are taken from the file of a
+/// binary column with the same total bytes, in which "é" is split across two adjacent values:
+/// the concatenation of the values is valid UTF-8, the individual values are not.
+fn split_char_file(spec: &str) -> Option<Vec<u8>> {
+    use arrow_array::{BinaryArray, BinaryViewArray, StringViewArray};
+    let (kind, enc) = spec.split_once(':')?;
+    // same length deltas / dictionary shape in both files, so the page bytes are interchangeable
+    let strings = ["é", "x", "é", "x"];
+    let binaries: [&[u8]; 4] = [&[0xc3], &[0xa9, b'x'], &[0xc3], &[0xa9, b'x']];
+    let (a, b): (ArrayRef, ArrayRef) = if kind == "view" {
+        (Arc::new(StringViewArray::from_iter_values(strings)), Arc::new(BinaryViewArray::from_iter_values(binaries)))
+    } else {
+        (Arc::new(StringArray::from_iter_values(strings)), Arc::new(BinaryArray::from_iter_values(binaries)))
+    };
+    let write = |col: ArrayRef| -> Vec<u8> {
+        let mut p = WriterProperties::builder().set_statistics_enabled(EnabledStatistics::None).set_compression(Compression::UNCOMPRESSED);
+        p = match enc {
+            "dlen" => p.set_dictionary_enabled(false).set_encoding(Encoding::DELTA_LENGTH_BYTE_ARRAY),
+            "dba" => p.set_dictionary_enabled(false).set_encoding(Encoding::DELTA_BYTE_ARRAY),
+            "dict" => p.set_dictionary_enabled(true),
+            _ => p.set_dictionary_enabled(false).set_encoding(Encoding::PLAIN),
+        };
+        let batch = RecordBatch::try_from_iter_with_nullable(vec![("c", col, false)]).unwrap();
+        let mut out = Vec::new();
+        let mut w = ArrowWriter::try_new(&mut out, batch.schema(), Some(p.build())).unwrap();
+        w.write(&batch).unwrap();
+        w.close().unwrap();
+        out
+    };
+    let (fa, fb) = (write(a), write(b));
+    let start = |f: &[u8]| {
+        let n = f.len();
+        n - 8 - u32::from_le_bytes([f[n - 8], f[n - 7], f[n - 6], f[n - 5]]) as usize
+    };
+    let (sa, sb) = (start(&fa), start(&fb));
+    if sa != sb {
+        return None;
+    }
+    let mut out = fa.clone();
+    out[4..sa].copy_from_slice(&fb[4..sb]);
+    Some(out)
+}
+
 // ------------------------------------------------------------------ Variant binary format
 
 pub const N_VARIANTS: usize = 6;
@@ -634,6 +680,20 @@ fn run_case(line: &str) -> String {
                 let a = read_parquet(b.clone());
                 let c = read_parquet_lowlevel(b);
                 if c.starts_with("INVALID") { c } else { format!("{}/{}", a, c) }
+            })
+        }
+        "pqsplit" => {
+            let spec = arg(2).to_string();
+            guarded(move || match split_char_file(&spec) {
+                None => "harness-error:layouts-differ".into(),
+                Some(f) => {
+                    let a = read_parquet(f.clone());
+                    if a.starts_with("INVALID") {
+                        return a;
+                    }
+                    let c = read_parquet_lowlevel(f);
+                    if c.starts_with("INVALID") { c } else { format!("{}/{}", a, c) }
+                }
             })
         }
         "variant" => {
@@ -1027,6 +1087,12 @@ fn witnesses(thorough: bool) -> Vec<(String, String, usize)> {
     w("C08 rle 1 8 ffffffffffffffffffffff01".into(), "op:rle witness:bitreader-vlq-overlong nt");
     // "fully validated" unsorted Variant metadata whose offset splits a multi-byte character
     w("C08 variantraw 0102000103c3a961 00".into(), "op:variantraw witness:variant-unsorted-metadata-char-boundary nt");
+    // a multi-byte character split across two adjacent values of a string column
+    for kind in ["view", "utf8"] {
+        for enc in ["plain", "dlen", "dba", "dict"] {
+            w(format!("C08 pqsplit {}:{}", kind, enc), "op:pqsplit witness:split-char nt");
+        }
+    }
     // thrift over-long varint accepted with a wrapped value
     w("C08 tvlq 8080808080808080808001".into(), "op:tvlq witness:thrift-vlq-overlong nt");
     v
